@@ -278,6 +278,110 @@ func main() {
 			}
 		}
 
+		// ------------------------------------------------ a plugin that exists, but not on PATH
+		c.Part("not-on-path")
+		c.Bound("valid names whose executable is installed in the working directory and in TMPDIR only (not on PATH), in the 4 library positions and 4 CLI positions: the start must fail and no process may be started")
+		if c.Shard == 0 {
+			for _, name := range []string{"cwdonly", "CwdOnly", "cwd-only.1"} {
+				lower := strings.ToLower(name)
+				for _, base := range []string{work, tmpd} {
+					install(base, name)
+					install(base, lower)
+				}
+				os.Remove(filepath.Join(pathDir, "age-plugin-"+name))
+				os.Remove(filepath.Join(pathDir, "age-plugin-"+lower))
+				recStr := plugin.EncodeRecipient(lower, data)
+				idStr := plugin.EncodeIdentity(lower, data)
+				starts := []struct {
+					what string
+					run  func() error
+				}{
+					{"NewRecipient", func() error {
+						r, err := plugin.NewRecipient(recStr, &plugin.ClientUI{})
+						if err != nil {
+							return err
+						}
+						_, err = r.Wrap(make([]byte, 16))
+						return err
+					}},
+					{"NewIdentity", func() error {
+						i, err := plugin.NewIdentity(idStr, &plugin.ClientUI{})
+						if err != nil {
+							return err
+						}
+						_, err = i.Unwrap([]*age.Stanza{{Type: "x"}})
+						return err
+					}},
+					{"NewIdentityWithoutData.Unwrap", func() error {
+						i, err := plugin.NewIdentityWithoutData(name, &plugin.ClientUI{})
+						if err != nil {
+							return err
+						}
+						_, err = i.Unwrap([]*age.Stanza{{Type: "x"}})
+						return err
+					}},
+					{"NewIdentityWithoutData.Recipient.Wrap", func() error {
+						i, err := plugin.NewIdentityWithoutData(name, &plugin.ClientUI{})
+						if err != nil {
+							return err
+						}
+						_, err = i.Recipient().Wrap(make([]byte, 16))
+						return err
+					}},
+				}
+				for _, st := range starts {
+					id := fmt.Sprintf("notonpath.%s.%s", name, st.what)
+					if c.Replaying() && !c.Want(id) {
+						continue
+					}
+					c.Eval(1)
+					c.DistinctOnce(ev.HashStr(id))
+					os.Remove(execlog)
+					var err error
+					func() {
+						defer func() {
+							if r := recover(); r != nil {
+								err = fmt.Errorf("panic: %v", r)
+							}
+						}()
+						err = st.run()
+					}()
+					recs := readLog(execlog)
+					if len(recs) != 0 || err == nil {
+						c.Fail("executable-outside-path-started/"+st.what, id, "age-plugin-"+lower+" is not on PATH (it exists in the working directory and in TMPDIR): nothing may be started", map[string]interface{}{"name": name, "err": fmt.Sprint(err), "started": fmt.Sprint(recs)})
+					}
+				}
+				if ageBin != "" {
+					in := filepath.Join(work, "nop-input")
+					os.WriteFile(in, []byte("hello"), 0o600)
+					anyFile, _ := lab.Encrypt([]age.Recipient{keys.X(0).Rcpt}, []byte("x"), false, nil)
+					enc := filepath.Join(work, "nop.age")
+					os.WriteFile(enc, anyFile, 0o600)
+					idf := filepath.Join(work, "nop-id.txt")
+					os.WriteFile(idf, []byte(idStr+"\n"), 0o600)
+					for _, r := range [][]string{{"-r", recStr, "-o", filepath.Join(work, "nop1"), in}, {"-e", "-i", idf, "-o", filepath.Join(work, "nop2"), in}, {"-d", "-i", idf, enc}, {"-d", "-j", name, enc}} {
+						id := fmt.Sprintf("notonpath.cli.%s.%s", name, strings.Join(r[:2], ""))
+						if c.Replaying() && !c.Want(id) {
+							continue
+						}
+						os.Remove(execlog)
+						cmd := exec.Command(ageBin, r...)
+						cmd.Dir = work
+						var stderr bytes.Buffer
+						cmd.Stderr = &stderr
+						err := cmd.Run()
+						c.Eval(1)
+						c.DistinctOnce(ev.HashStr(id))
+						recs := readLog(execlog)
+						if len(recs) != 0 || err == nil {
+							c.Fail("executable-outside-path-started/cli", id, "age started (or succeeded with) a plugin that is not on PATH", map[string]interface{}{"args": r, "exit_error": fmt.Sprint(err), "stderr": ev.Clip(stderr.String(), 300), "started": fmt.Sprint(recs)})
+						}
+					}
+				}
+			}
+			c.Sample(map[string]interface{}{"name": "cwdonly", "installed_in": "working directory, TMPDIR", "PATH": "private directory without it"})
+		}
+
 		// ------------------------------------------------ histories: the program started must not depend on earlier starts
 		c.Part("start-histories")
 		c.Bound("in one process, bare plugin names differing only in case and a PATH change between starts: each start must run exactly PATH/age-plugin-NAME for the name and PATH in force")
